@@ -36,11 +36,32 @@ def fit(edges, x, y):
     return out
 
 
+def boundary_is_edge(name, last, groups, edges, depth=0):
+    """whether the group's item list, with nested references substituted, ends (last=True) / begins (last=False) with an edge item"""
+    items = groups[name]
+    if not items or depth > 6:
+        return False
+    it = items[-1] if last else items[0]
+    n, o = it[:-1], it[-1]
+    if n in edges:
+        return True
+    if n in groups:
+        return boundary_is_edge(n, last if o == "+" else not last, groups, edges, depth + 1)
+    return False
+
+
 def walk_of(name, groups, edges, depth=0):
+    """Reference walk.  Two readings of 'nested paths inlined' exist: (T) the nested group's ITEMS are substituted and implied elements
+    added afterwards (tutorial: 'references to subgroups are resolved and implicit elements are added'), (W) the nested group's WALK is
+    substituted.  They differ only at the two boundaries of a nested reference: when the boundary item is an edge, (T) treats the boundary
+    segment as supplied by that edge, (W) as an explicit segment.  Only item lists on which both readings agree are pinned; the rest is
+    Unsupported (never judged), and the reading-independent relation 'a group consisting of one nested reference behaves as that
+    reference' is checked separately (alias_case)."""
     if depth > 6:
         raise Unsupported("nesting")
     tokens = []
-    for it in groups[name]:
+    items = groups[name]
+    for idx, it in enumerate(items):
         n, o = it[:-1], it[-1]
         if n in SEGS:
             tokens.append(("S", it))
@@ -50,11 +71,15 @@ def walk_of(name, groups, edges, depth=0):
             sub = walk_of(n, groups, edges, depth + 1)
             if o == "-":
                 sub = [inv(t) for t in reversed(sub)]
+            begins = boundary_is_edge(n, o != "+", groups, edges)       # in the direction of traversal
+            ends = boundary_is_edge(n, o == "+", groups, edges)
+            if begins and tokens:
+                raise Unsupported("nested path beginning with an edge after other items: readings differ")
+            if ends and idx + 1 < len(items) and items[idx + 1][:-1] not in edges:
+                raise Unsupported("nested path ending with an edge followed by a segment or path: readings differ")
             for t in sub:
                 tokens.append(("S" if t[:-1] in SEGS else "E", t))
-            idx = groups[name].index(it)
-            if idx + 1 < len(groups[name]) and groups[name][idx + 1] == sub[-1]:
-                raise Unsupported("segment repeated after a nested path: not pinned")
+            tokens.append(("B", None))            # boundary: the last segment of the inlined walk counts as explicit
         else:
             raise Unsupported("item " + it)
     es = [t[:-1] for k, t in tokens if k == "E"]
@@ -63,6 +88,9 @@ def walk_of(name, groups, edges, depth=0):
     walk = []
     supplied = False
     for i, (k, t) in enumerate(tokens):
+        if k == "B":
+            supplied = False
+            continue
         if k == "S":
             if not walk:
                 walk.append(t)
@@ -136,27 +164,6 @@ def induced(name, groups, usets, edges, depth=0):
     return sset, eset
 
 
-def nested_edge_pattern(groups, edges):
-    """an item list where a nested path that ends (in the direction it is traversed) with an edge item is followed by a segment"""
-    def boundary_is_edge(name, last, depth=0):
-        items = groups[name]
-        if not items or depth > 6:
-            return False
-        it = items[-1] if last else items[0]
-        n, o = it[:-1], it[-1]
-        if n in edges:
-            return True
-        if n in groups:
-            return boundary_is_edge(n, last if o == "+" else not last, depth + 1)
-        return False
-    for name, items in groups.items():
-        for i, it in enumerate(items[:-1]):
-            n, o = it[:-1], it[-1]
-            if n in groups and items[i + 1][:-1] in SEGS and (boundary_is_edge(n, o == "+") or boundary_is_edge(n, True)):
-                return True
-    return False
-
-
 def check(case):
     edges, groups, usets, order_seed = case
     lines = BASE + [eline(e) for e in edges]
@@ -195,12 +202,43 @@ def check(case):
         except Exception as e:
             got = ("foreign", type(e).__name__)
         if want[0] == "ok" and got != want:
-            tag = ":after-nested-path-ending-with-edge" if (nested_edge_pattern(groups, edges) and got == ("err", "InconsistencyError")) else ""
-            fail("captured-path-differs%s" % tag, "%s items %s: want %s got %s" % (n, groups[n], want, got))
+            fail("captured-path-differs", "%s items %s: want %s got %s" % (n, groups[n], want, got))
         elif want[0] == "err" and got[0] == "ok":
             fail("invalid-items-not-reported:%s" % want[1], "%s items %s: got %s" % (n, groups[n], got[1]))
         elif want[0] == "err" and got[0] == "foreign":
             fail("foreign-exception-%s" % got[1], "%s items %s" % (n, groups[n]))
+    # reading-independent relation: a group that consists of one reference to n (alias) is interchangeable with n, in both directions
+    def outcome(gg, n):
+        try:
+            return ("ok", [str(x) for x in gg.line(n).captured_path])
+        except gfapy.Error as e:
+            return ("err",)
+        except RecursionError:
+            return ("err",)
+        except Exception as e:
+            return ("foreign", type(e).__name__)
+    refs = [(m, i, it) for m, items in groups.items() for i, it in enumerate(items) if it[:-1] in groups and it[:-1] != m]
+    if refs:
+        extra = []
+        for k, (m, i, it) in enumerate(refs[:2]):
+            n, o = it[:-1], it[-1]
+            items = list(groups[m])
+            fwd = items[:i] + ["al%d%s" % (k, o)] + items[i + 1:]
+            bwd = items[:i] + ["ar%d%s" % (k, oracle.inv(o))] + items[i + 1:]
+            extra += ["O\tal%d\t%s+" % (k, n), "O\tar%d\t%s-" % (k, n), "O\tmf%d\t%s" % (k, " ".join(fwd)), "O\tmb%d\t%s" % (k, " ".join(bwd))]
+        try:
+            g2 = gfapy.Gfa(alll + extra, vlevel=1)
+            for k, (m, i, it) in enumerate(refs[:2]):
+                base = outcome(g2, m)
+                for v in ("mf%d" % k, "mb%d" % k):
+                    got = outcome(g2, v)
+                    if got != base:
+                        fails.append(dict(signature="C17:alias-of-nested-path-differs", what="%s items %s gives %s; with the reference %s replaced by a one-item group (%s) it gives %s"
+                                          % (m, groups[m], base, it, [x for x in extra if x.startswith("O\t" + v) or x.startswith("O\ta")], got),
+                                          case=dict(lines=alll + extra),
+                                          reproducer="import gfapy\ng = gfapy.Gfa(%r)\nfor n in (%r, %r):\n  try: print(n, [str(x) for x in g.line(n).captured_path])\n  except gfapy.Error as e: print(n, type(e).__name__)" % (alll + extra, m, v)))
+        except gfapy.Error as e:
+            pass
     for n in usets:
         try:
             ws, we = induced(n, groups, usets, edges)
@@ -215,8 +253,7 @@ def check(case):
             if ge != sorted(we):
                 fail("induced-edges-differ", "%s items %s: want %s got %s" % (n, usets[n], sorted(we), ge))
         except gfapy.Error as e:
-            tag = ":after-nested-path-ending-with-edge" if (nested_edge_pattern(groups, edges) and type(e).__name__ == "InconsistencyError") else ""
-            fail("induced-set-raises-%s%s" % (type(e).__name__, tag), "%s items %s: %s" % (n, usets[n], harness.short(e, 120)))
+            fail("induced-set-raises-%s" % (type(e).__name__,), "%s items %s: %s" % (n, usets[n], harness.short(e, 120)))
         except Exception as e:
             fail("induced-set-foreign-%s" % type(e).__name__, "%s items %s" % (n, usets[n]))
     return dict(key=(tuple(alll),), nontrivial=bool(groups or usets), failures=fails, sample=dict(lines=alll))
@@ -299,6 +336,22 @@ def cases(tier, seed):
             pool = SEGS + list(edges) + sorted(groups) + sorted(usets)
             usets["u%d" % ui] = rng.sample(pool, rng.randrange(1, min(4, len(pool)) + 1))
         out.append((edges, groups, usets, rng.randrange(10**6)))
+    # systematic nested references: every boundary kind of the inner path (segment/edge first, segment/edge last), both orientations,
+    # every oriented segment or nothing before, every oriented segment / edge or nothing after
+    sys_edges = ("e1", "e2", "e3", "e4", "e6")
+    inners = (["A+", "B+"], ["A+", "e1+"], ["e1+", "B+"], ["e1+", "e2+"], ["B+", "e2+", "C+", "D+"])
+    posts = [None] + oriented + [e + o for e in sys_edges for o in "+-"]
+    pres = [None] + oriented
+    k = 0
+    for inner in inners:
+        for o in "+-":
+            for pre in pres:
+                for post in posts:
+                    k += 1
+                    if tier == "quick" and pre is not None and post is not None and k % 3:
+                        continue
+                    outer = ([pre] if pre else []) + ["o0" + o] + ([post] if post else [])
+                    out.append((sys_edges, {"o0": list(inner), "o1": outer}, {}, k))
     for rt, parts in (("U", ["A B", "C", "e1 D"]), ("O", ["A+ B+", "C+", "D+"]), ("U", ["A", "B"]), ("O", ["A+", "B+ C+"])):
         for perm in itertools.permutations(range(len(parts))):
             if rt == "O" and list(perm) != sorted(perm):
